@@ -1158,7 +1158,22 @@ class Engine:
             self._comp(e.generators, 0, env, put)
             return out
         if k is ast.JoinedStr:
-            return "<fstring>"  # message formatting is not the subject
+            # message formatting is not the subject, but the interpolated expressions ARE evaluated (they can raise)
+            parts, exact = [], True
+            for v in e.values:
+                if isinstance(v, ast.FormattedValue):
+                    val = self.expr(v.value, env)
+                    if isinstance(val, (str, int, bool, float, bytes)) or val is None:
+                        if v.format_spec is None and v.conversion in (-1, 115):
+                            parts.append(str(val))
+                            continue
+                        if v.conversion == 114 and v.format_spec is None:
+                            parts.append(repr(val))
+                            continue
+                    exact = False
+                elif isinstance(v, ast.Constant):
+                    parts.append(str(v.value))
+            return "".join(parts) if exact else "<fstring>"
         if k is ast.Starred:
             raise Unsupported("starred")
         raise Unsupported("expression %s" % k.__name__)
